@@ -23,11 +23,13 @@ TIMERS_INV = ["CountsToZero", "ValueLatched", "EventWhenZero", "IrqIsPendingEnab
 UART_INV = ["TxWaveform", "TxBitLength", "TxIdleHigh", "TxReadyOnce", "RxNoSpurious", "RxRightByte", "RxDelivered"]
 
 SPIM_INV = ["ExactPulseCount", "ChipSelectFrames", "DeselectedAtPowerUp", "MosiMsbFirst", "MosiStableWhileHigh", "MisoCaptured",
-            "DoneMeansIdle", "IrqOnlyAtEnd"]
+            "MisoHeld", "DoneMeansIdle", "IrqOnlyAtEnd"]
 
-SPIS_INV = ["StartOnce", "IrqOnce", "LengthCounted", "MosiCaptured", "MisoMsbFirst", "MisoStableWhileHigh", "DoneMeansIdle"]
+SPIS_INV = ["StartOnce", "IrqOnce", "LengthCounted", "MosiCaptured", "MisoMsbFirst", "MisoStableWhileHigh", "DoneMeansIdle",
+            "ResultHeld"]
 
-I2C_INV = ["SdaOnlyStartStop", "ClocksPerCommand", "ByteOnSda", "SclPhaseLength", "StatusReadBack", "IdleMeansComplete"]
+I2C_INV = ["SdaOnlyStartStop", "ClocksPerCommand", "ByteOnSda", "SclPhaseLength", "StatusReadBack", "IdleMeansComplete",
+           "ReadReturnsStatus"]
 
 FAMILIES = {
     "i2c": (GFamily("periph/I2cGraph", "periph/I2cTrace", FACTORY, hint=fam.I2cHint(),
@@ -54,7 +56,8 @@ WITNESSES = {
     "i2c": ["byte written and acknowledged", "byte written, not acknowledged", "byte read", "stop", "repeated start",
             "stop on a free bus", "stop or start straight after a start"],
     "spis": ["transfer reported", "transfer after the minimum gap", "full word sent"],
-    "spim": ["transfer completed", "back-to-back start", "start during a transfer", "mixed miso bits read back"],
+    "spim": ["transfer completed", "back-to-back start", "start during a transfer", "mixed miso bits read back",
+             "read-back word held during the next transfer"],
     "tx": ["back-to-back frame", "frame ended, line idle", "stop bit edge"],
     "rx": ["byte delivered", "back-to-back frame"],
     "tline": ["trigger while busy"],
@@ -294,7 +297,12 @@ def run(prop, report, tier, seed, parallel=None):
     report.assume("UART receiver: bit period >= 4 cycles (exact rate) / >= 8 cycles (+-2 % mismatch, any phase), the "
                   "line idles for three cycles after reset; SPI slave: master half period >= 4 cycles; I2C: clock "
                   "load >= 1, no clock stretching, commands follow the I2C transaction grammar, plus STOP / START commands "
-                  "that have nothing to do (STOP with no byte phase open, START straight after a START)")
+                  "that have nothing to do (STOP with no byte phase open, START straight after a START); reads of the xfer "
+                  "register at any time in the polling scenarios")
+    report.assume("SPI master: software holds length and chip-select setting during a transfer; the MOSI register may be "
+                  "rewritten during a transfer in the mosichg scenarios; SPI slave: the master's waveform is rigid (lead, "
+                  "half period and trail of h cycles), on a shared bus (scenarios with other = 1) the same waveforms run "
+                  "for another slave while this one is deselected; RS232PHY wrapper: clk_freq / baudrate integer ratios")
     tl = tasks(tier)
     par = parallel if parallel is not None else int(os.environ.get("VERIF_C19_PARALLEL", "6"))
     ctx = mp.get_context("fork")
